@@ -43,7 +43,10 @@ macro_rules! by_prime {
             3 => $f::<{ primes::U128_LARGE_1 }>($($arg),*),
             4 => $f::<{ primes::U128_LARGE_2 }>($($arg),*),
             5 => $f::<{ primes::U128_LARGE_3 }>($($arg),*),
-            _ => $f::<{ primes::U128_LARGE_4 }>($($arg),*),
+            6 => $f::<{ primes::U128_LARGE_4 }>($($arg),*),
+            7 => $f::<{ crate::ringstream::EXTRA_MODULI[0] }>($($arg),*),
+            8 => $f::<{ crate::ringstream::EXTRA_MODULI[1] }>($($arg),*),
+            _ => $f::<{ crate::ringstream::EXTRA_MODULI[2] }>($($arg),*),
         }
     };
 }
@@ -56,7 +59,7 @@ pub fn wmc_lines(rng: &mut Rng, maxvars: usize, maxops: usize) -> Vec<String> {
     let n = rng.range(1, maxvars as u64) as usize;
     let nops = rng.range(4, maxops as u64) as usize;
     let prog = gen_program(rng, n, nops, false);
-    let pi = rng.below(7) as usize;
+    let pi = if rng.chance(1, 6) { 7 + rng.below(3) as usize } else { rng.below(7) as usize };
     let p = PRIMES[pi];
     // normalised field weights, arbitrary small integer weights, dyadic real weights
     // normalised weights: random, or (one case in three) from the boundary family
